@@ -205,12 +205,20 @@ def readouts_native(vc):
     rng = np.random.default_rng(seed)
     post = Posterior(KINDS[seed % 2], d, rng)
     ch = make_sampler(kind, post, d, rng, seed=seed)
+    single = vc.bool("built_by_single_steps_first")       # (take_step / run_for path before advance: the stores are shared by both)
+    if single:
+        for _ in range(2):
+            ch.take_step()
     if kind == "ensemble":
         quiet(ch.advance, max(1, steps // 4))
     else:
         quiet(ch.advance, steps)
     X, P = stored_points(ch)
     N = X.shape[0]
+    # the read-outs stay aligned row for row: every stored log-probability is that of its own stored row
+    beta_ = 1.0 if kind == "ensemble" else float(getattr(ch, "inv_temp", 1.0))
+    vc.ensures("stored_rows_carry_their_own_logprob", len(X) == len(P) and all(
+        abs(P[k] - beta_ * post.f(X[k])) <= 1e-9 * max(1.0, abs(P[k])) for k in range(len(P))))
     sel = list(range(burn, N, thin))
     pr = ch.get_probabilities(burn=burn, thin=thin)
     sm = ch.get_sample(burn=burn, thin=thin)
